@@ -421,7 +421,20 @@ class Interp:
         if isinstance(e, ast.List):
             return [self.ev(x, env, local, br) for x in e.elts]
         if isinstance(e, ast.JoinedStr):
-            return '<fstring>'
+            # concrete parts are formatted for real (getattr(value, f'__{cls.__name__}__')); anything symbolic: a placeholder (messages)
+            parts = []
+            for p_ in e.values:
+                if isinstance(p_, ast.Constant):
+                    parts.append(str(p_.value))
+                    continue
+                try:
+                    v = self.ev(p_.value, env, local, br)
+                except Unsupported:
+                    return '<fstring>'
+                if is_sym(v) or is_model(v) or p_.format_spec is not None or p_.conversion != -1:
+                    return '<fstring>'
+                parts.append(format(v))
+            return ''.join(parts)
         if isinstance(e, ast.ListComp) or isinstance(e, ast.GeneratorExp):
             raise Unsupported('comprehension')
         raise Unsupported('expression ' + ast.dump(e)[:200])
@@ -433,6 +446,11 @@ class Interp:
             m = None
         if m is not None:
             return m(self, br, *args, **kw)
+        if f is getattr and len(args) >= 2 and isinstance(args[1], str) and not is_sym(args[0]):
+            return getattr(*args)
+        if inspect.ismethod(f) and getattr(f.__func__, '__module__', '').startswith(self.inline_prefix):
+            # a method of the repo's own classes (also one inherited by a model stand-in, and classmethods): interpreted
+            return self.call_function(f.__func__, [f.__self__] + list(args), kw, br)
         if is_model(getattr(f, '__self__', None)):
             r = f(*args, **kw)
             return r
